@@ -289,9 +289,11 @@ use httpd::{Client, DaemonSpec, Endpoint, RoleDef, RoleHow, UserDef};
 const ADMIN_TOKEN: &str = "c13-admin-token";
 
 #[derive(Clone, Debug)]
+#[allow(dead_code)]
 struct Route { method: String, segs: Vec<(String, String)>, gated: bool, per_ca: bool, kind: String, testbed: bool, path: String, filter: Option<String> }
 
 #[derive(Clone, Debug)]
+#[allow(dead_code)]
 struct Table { perms: Vec<(String, String)>, sets: BTreeMap<String, Value>, routes: Vec<Route> }
 
 fn load_table(args: &Args) -> Table {
@@ -390,7 +392,7 @@ fn battery(t: &Table, rng: &mut Rng, n_random: u64) -> Vec<BRole> {
     v.push(complex("x-none-ca2-caread-only".into(), "complex", login, 0, vec![("ca2".into(), caread)]));
     // arbitrary ones
     for k in 0..n_random {
-        let mut pick = |rng: &mut Rng| -> u32 {
+        let pick = |rng: &mut Rng| -> u32 {
             match rng.weighted(&[10, 10, 50, 15, 15]) {
                 0 => 0,
                 1 => all,
@@ -627,7 +629,9 @@ fn run(args: &Args) -> i32 {
             let mut last_fp: Option<(Option<String>, String)> = None;
             let tq = std::time::Instant::now();
             for route in &table.routes {
-                let ca_variants: Vec<&str> = if route.per_ca { cas.clone() } else { vec!["ca1"] };
+                let mut ca_variants: Vec<&str> = if route.per_ca { cas.clone() } else { vec!["ca1"] };
+                // do not let the permitted callers delete the testbed CA (ca1 / ca2 are re-created after a served DELETE)
+                if route.method == "DELETE" && route.path == "/api/v1/cas/{handle}" { ca_variants.retain(|c| *c != "testbed"); }
                 let opts: Vec<bool> = if route.segs.iter().any(|s| s.0 == "O") && args.thorough() { vec![false, true] } else { vec![false] };
                 for ca in &ca_variants { for opt in &opts {
                     let segs = instantiate(route, ca, *opt);
